@@ -143,6 +143,10 @@ class ASPath(Attribute):
         Returns:
             ASPath instance
         """
+        # a path holding an AS number above 65535 can only be stored in the 4-byte format
+        # (pack_attribute converts to what the session negotiated, with AS_TRANS and AS4_PATH)
+        if not asn4 and any(asn.asn4() for segment in segments for asn in segment):
+            asn4 = True
         packed = cls._pack_segments_raw(tuple(segments), asn4)
         return cls(packed, asn4)
 
